@@ -940,7 +940,9 @@ pub fn run_c09(o: &Opts) -> Report {
         }
     }
     let cases = std::mem::take(&mut cx.cases);
-    finish(o, "C09", rep, cases)
+    // lexical half: every White_Space character in pure-ASCII and in non-ASCII texts, real lexical parser vs its model
+    // (a second shard set, Run/LexRun.v) and parse / parse + fold invariance on the real code
+    crate::lexprops::c09_lexical_ws(o, finish(o, "C09", rep, cases))
 }
 
 /// removing the spaces the formatter prints around copulas can merge a name with the copula (only when
